@@ -240,24 +240,38 @@ template <class C> struct Exec {
 
     MgrInst& mgr_of(int idx) { if (idx < 0 || idx >= (int)mgrs.size()) idx = 0; return mgrs[idx]; }
 
+    // Plan text is a byte string. The pair (0x1F, '0'..'9'+) is an escape for a code point above 255 in the wchar_t build (the
+    // char build keeps the two bytes as they are): code points whose low byte equals an ASCII character that matters to the
+    // grammar, which is where narrowing casts go wrong.
+    static std::vector<C> expand(const std::string& bytes) {
+        static const unsigned long kWide[] = {0x130, 0x139, 0x235, 0x4E39, 0x161, 0x141, 0x12F, 0x13A, 0x125, 0x15B, 0x100, 0x20AC, 0x10000 + '@', 0x7FFFFF3F};
+        std::vector<C> v;
+        for (size_t i = 0; i < bytes.size(); i++) {
+            unsigned char b = (unsigned char)bytes[i];
+            if (sizeof(C) > 1 && b == 0x1F && i + 1 < bytes.size() && bytes[i + 1] >= '0' && bytes[i + 1] <= '0' + 13) { v.push_back((C)kWide[bytes[i + 1] - '0']); i++; }
+            else v.push_back((C)b);
+        }
+        return v;
+    }
     // text placement: returns buffer id. chars beyond the window are present in memory but not readable.
     int make_text(const std::string& bytes, int window, int placement, int trail, bool need_nul) {
         static const char* kTrail[] = {"", "]", "0", "a", "%41", "/..", ":", "@", "1.2", "[", "#", "?", "%", "%4", ".", "//", "F"};
-        int n = (int)bytes.size();
+        std::vector<C> chars = expand(bytes);
+        int n = (int)chars.size();
         int win = (window < 0 || window > n) ? n : window;
-        std::string rest;
+        std::vector<C> rest;
         if (!need_nul) {
-            rest = bytes.substr((size_t)win);
-            if (placement == 1) rest += kTrail[(unsigned)trail % (sizeof kTrail / sizeof kTrail[0])];
+            rest.assign(chars.begin() + win, chars.end());
+            if (placement == 1) for (const char* t = kTrail[(unsigned)trail % (sizeof kTrail / sizeof kTrail[0])]; *t; t++) rest.push_back((C)(unsigned char)*t);
         }
         arena_alloc(A_TEXT, 64, sizeof(C), perm(0, RS_OUT_OF_WINDOW));
         C* base = (C*)arena_alloc(A_TEXT, (size_t)win * sizeof(C), sizeof(C), perm(P_R, RS_INPUT_TEXT));
-        for (int i = 0; i < win; i++) base[i] = (C)(unsigned char)bytes[(size_t)i];
+        for (int i = 0; i < win; i++) base[i] = chars[(size_t)i];
         int total = win;
         if (need_nul) { C* z = (C*)arena_alloc(A_TEXT, sizeof(C), 1, perm(P_R, RS_INPUT_TEXT)); *z = 0; total++; }
         if (!rest.empty()) {
             C* r = (C*)arena_alloc(A_TEXT, rest.size() * sizeof(C), 1, perm(0, RS_OUT_OF_WINDOW));
-            for (size_t i = 0; i < rest.size(); i++) r[i] = (C)(unsigned char)rest[i];
+            for (size_t i = 0; i < rest.size(); i++) r[i] = rest[i];
             total += (int)rest.size();
         }
         // junk after, unreadable
@@ -433,9 +447,11 @@ template <class C> struct Exec {
     }
     C* put_str(const std::string& s, ArenaId ar) {
         arena_alloc(ar, 16, sizeof(C), perm(0, RS_REDZONE));
-        C* p = (C*)arena_alloc(ar, (s.size() + 1) * sizeof(C), sizeof(C), perm(P_R, RS_INPUT_TEXT));
-        for (size_t i = 0; i < s.size(); i++) p[i] = (C)(unsigned char)s[i];
-        p[s.size()] = 0;
+        // query items, escape and filename inputs range over code points 1..255 only (C17's domain): no wide escapes here
+        std::vector<C> ch; for (unsigned char b : s) ch.push_back((C)b);
+        C* p = (C*)arena_alloc(ar, (ch.size() + 1) * sizeof(C), sizeof(C), perm(P_R, RS_INPUT_TEXT));
+        for (size_t i = 0; i < ch.size(); i++) p[i] = ch[i];
+        p[ch.size()] = 0;
         arena_alloc(ar, 16, 1, perm(0, RS_REDZONE));
         return p;
     }
